@@ -52,7 +52,7 @@ NPROC = 16
 COUNTS = Counter()
 _LAST = {}
 NO_SAMPLING_PACKS = ("addstat",)  # AddStat: the child tracks a statistic the parent cannot supply (documented)
-LEAF_LIMIT = 300000
+LEAF_LIMIT = 200000  # hard stop for one decision tree (the per-size budget below normally prevents reaching it)
 
 
 def _note(check, what):
@@ -104,11 +104,12 @@ class Enumerator:
     def __getattr__(self, name):  # everything else (Random, ...) is the real module's
         return getattr(_real_random, name)
 
-    def probability(self):
-        p = Fraction(1)
+    def denominator(self):
+        """The leaf just explored has probability 1 / denominator()."""
+        den = 1
         for _, arity in self.trace:
-            p /= arity
-        return p
+            den *= arity
+        return den
 
     def next_prefix(self):
         t = self.trace
@@ -142,17 +143,18 @@ class TooManyLeaves(Exception):
 
 def enumerate_distribution(call, limit=LEAF_LIMIT):
     """Exact distribution {result: probability} of call() over all outcomes of the random source."""
-    dist = Counter()
+    dens = {}
     prefix = []
     leaves = 0
     while prefix is not None:
         ENUM.start(prefix)
-        res = call()
-        dist[str(res)] += ENUM.probability()
+        res = str(call())
+        dens.setdefault(res, Counter())[ENUM.denominator()] += 1
         leaves += 1
         if leaves > limit:
             raise TooManyLeaves
         prefix = ENUM.next_prefix()
+    dist = {res: sum(Fraction(k, den) for den, k in cnt.items()) for res, cnt in dens.items()}
     return dist, leaves
 
 
@@ -276,24 +278,38 @@ def all_rules(spec):
             continue
 
 
-def check_spec(job, start, spec, nmax, out):
+def check_spec(job, start, spec, nmax, budget, out):
+    """Sizes in increasing order.  The decision trees of size n have about (number of objects)^2 times as many leaves
+    as those of size n-1 (one threshold walk in a union and one in a product per letter); a size whose predicted
+    number of leaves exceeds `budget` is not explored (counted in out["sizes_skipped"]), sizes <= 3 always are."""
+    previous = 1
     for n in range(nmax + 1):
+        predicted = max(1, previous) * max(1, len(brute_objects(start, n))) ** 2
+        explore = n <= 3 or predicted <= budget
+        if not explore:
+            out["sizes_skipped"] += 1
+        here = 0
         for params in start.possible_parameters(n):
             _LAST.clear()
-            out["evals"] += 1
             extra = {"n": n, "params": params}
             try:
                 if _brute_with(start, n, params):
+                    if not explore:
+                        continue
+                    out["evals"] += 1
                     _, leaves = distribution(spec, start, n, params)
+                    here += leaves
                     out["leaves"] += leaves
                     out["nontrivial"] += leaves > 1
                     if leaves > 3 and len(out["samples"]) < 1:
                         out["samples"].append(dict(job, n=n, params=params, leaves=leaves,
                                                    objects=len(_brute_with(start, n, params))))
                 else:
+                    out["evals"] += 1
                     refusal(spec, start, n, params)
             except TooManyLeaves:
                 out["truncated"] += 1
+                here += LEAF_LIMIT
             except deal.PreContractError:
                 raise
             except deal.ContractError:
@@ -303,6 +319,11 @@ def check_spec(job, start, spec, nmax, out):
                 _note("sampling-exception", f"n={n} {params}: {type(e).__name__}: {e}")
                 out["viols"].append(_viol(job, extra))
                 return
+        if explore:
+            previous = here
+        else:
+            previous = predicted
+        out["max_n"] = n if explore else out["max_n"]
 
 
 def check_rules(job, spec, nmax, out):
@@ -314,7 +335,6 @@ def check_rules(job, spec, nmax, out):
             for param in sorted(brute_terms(parent, n)):
                 params = dict(zip(parent.extra_parameters, param))
                 _LAST.clear()
-                out["evals"] += 1
                 out["rule_cases"] += 1
                 extra = {"rule_parent": repr(parent), "n": n, "params": params}
                 try:
@@ -328,10 +348,10 @@ def check_rules(job, spec, nmax, out):
                     return
 
 
-def run_job(job, nmax, nrule):
+def run_job(job, nmax, nrule, budget):
     silence()
     out = {"viols": [], "evals": 0, "leaves": 0, "nontrivial": 0, "rule_cases": 0, "truncated": 0, "samples": [],
-           "key": None, "found": False, "sampling": False}
+           "key": None, "found": False, "sampling": False, "sizes_skipped": 0, "max_n": -1}
     try:
         start, spec = build_spec(job)
     except Exception as e:  # pylint: disable=broad-except
@@ -345,16 +365,27 @@ def run_job(job, nmax, nrule):
         return out  # Complement / Quotient refuse sampling with the documented NotImplementedError
     out["sampling"] = True
     with installed():
-        check_spec(job, start, spec, nmax, out)
+        check_spec(job, start, spec, nmax, budget, out)
         check_rules(job, spec, nrule, out)
     return out
 
 
+def _key_worker(job):
+    silence()
+    try:
+        _, spec = build_spec(job)
+    except Exception:  # pylint: disable=broad-except
+        return None
+    if spec is None or not supports_generation(spec):
+        return None
+    return spec_key(spec)
+
+
 def _worker(arg):
-    job, nmax, nrule = arg
+    job, nmax, nrule, budget = arg
     COUNTS.clear()
     t0 = time.time()
-    out = run_job(job, nmax, nrule)
+    out = run_job(job, nmax, nrule, budget)
     out["counts"] = dict(COUNTS)
     out["secs"] = time.time() - t0
     return out
@@ -374,46 +405,49 @@ def _dedupe(viols):
 def run(tier, seed):
     nmax = 4 if tier == "quick" else 5
     nrule = 5 if tier == "quick" else 6
+    budget = 3000 if tier == "quick" else 12000
     jobs = [j for j in family_jobs(tier, seed) if j["pack"] not in NO_SAMPLING_PACKS]
-    if tier != "quick":
-        # the decision tree grows like 2^(n^2/2): size 5 on a seeded third of the family, size 4 everywhere
-        rng = _real_random.Random(seed)
-        sizes = [5 if rng.random() < 0.34 else 4 for _ in jobs]
-    else:
-        sizes = [nmax] * len(jobs)
     ctx = multiprocessing.get_context("fork")
     with ctx.Pool(NPROC) as pool:
-        results = pool.map(_worker, [(j, s, nrule) for j, s in zip(jobs, sizes)], chunksize=2)
+        # phase 1: search; the same specification is found under several packs / rule databases -> keep one job each
+        keys = pool.map(_key_worker, jobs, chunksize=8)
+        chosen, seen = [], set()
+        for job, key in zip(jobs, keys):
+            if key is not None and key not in seen:
+                seen.add(key)
+                chosen.append(job)
+        results = pool.map(_worker, [(j, nmax, nrule, budget) for j in chosen], chunksize=1)
     counts = Counter()
     viols, samples = [], []
-    evals = found = sampling = leaves = truncated = 0
-    distinct = {}
+    evals = leaves = truncated = skipped = nontrivial = 0
+    reached = Counter()
     for r in results:
         counts.update(r["counts"])
         viols.extend(r["viols"])
-        evals += r["evals"]
-        found += r["found"]
-        sampling += r["sampling"]
+        evals += r["evals"] + r["rule_cases"]
         leaves += r["leaves"]
         truncated += r["truncated"]
+        skipped += r["sizes_skipped"]
+        nontrivial += r["nontrivial"] + r["rule_cases"]
+        reached[r["max_n"]] += 1
         samples.extend(r["samples"])
-        if r["key"] is not None and r["key"] not in distinct:
-            distinct[r["key"]] = r["nontrivial"] + r["rule_cases"]
     step = max(1, len(samples) // 6)
     nstarts = len(family_starts(tier, seed))
     return {
         "bound": (f"{nstarts} start classes x {len(ALL_PACKS) - len(NO_SAMPLING_PACKS)} packs x {len(RULEDBS)} rule "
-                  f"databases = {len(jobs)} searches ({found} specifications, {sampling} supporting sampling); exact "
-                  f"distribution for all n <= {nmax} (thorough: 5 on a seeded third, 4 elsewhere) and ALL parameter "
-                  f"vectors of possible_parameters(n) ({leaves} leaves of decision trees, {truncated} trees cut at "
-                  f"{LEAF_LIMIT} leaves); rule-level threshold walk for all n <= {nrule}, all occurring parameters, all "
-                  f"r in [1, parent_count]"),
+                  f"databases = {len(jobs)} searches, {sum(k is not None for k in keys)} specifications supporting "
+                  f"sampling, {len(chosen)} distinct ones checked; exact distribution (complete decision tree) for ALL "
+                  f"parameter vectors of possible_parameters(n), all n <= 3 and n <= {nmax} while the predicted number "
+                  f"of leaves of a size stays <= {budget} (largest size reached per specification: "
+                  f"{dict(sorted(reached.items()))}; {leaves} leaves in total, {skipped} sizes not explored, "
+                  f"{truncated} trees cut at {LEAF_LIMIT} leaves); rule-level threshold walk for all n <= {nrule}, all "
+                  f"occurring parameters, all r in [1, parent_count]"),
         "evaluations": evals,
-        "distinct_nontrivial": sum(distinct.values()),
+        "distinct_nontrivial": nontrivial,
         "rule": ("one evaluation = one (specification, n, parameters) exact distribution or refusal, or one (rule, n, "
-                 "parameters) threshold walk; distinct = counted once per distinct specification (sha1 of its JSON); "
-                 "non-trivial = a decision tree with more than one leaf, every rule-level walk"),
-        "exhaustive": tier == "quick",
+                 "parameters) threshold walk over all r; specifications are deduplicated by the sha1 of their JSON "
+                 "before checking; non-trivial = a decision tree with more than one leaf, every rule-level walk"),
+        "exhaustive": False,
         "contracts_evaluated": dict(counts),
         "samples": samples[::step][:6],
         "violations": _dedupe(viols),
@@ -425,7 +459,7 @@ def replay(violation):
     job = {k: w[k] for k in ("start", "pack", "db")}
     for _ in range(3):
         COUNTS.clear()
-        out = run_job(job, min(5, max(4, w.get("n", 4))), 6)
+        out = run_job(job, 5, 6, 12000)
         if any(v["check"] == violation["check"] for v in out["viols"]):
             return True
     return False
